@@ -188,6 +188,8 @@ def order_property(prop: str, lvl: str, repo: str, tier: str) -> CheckResult:
     summary_obligations(res, results)
     stale_cache(res, repo, merges=True)
     merge_asserts(res, repo, want_c)
+    from . import rules_shape as _rs
+    _rs.no_shared_memo(res, program(repo))
     res.floors = {'IDX': 8 if lvl == 'story' else 5, 'SEARCH-SUMMARY': 1, 'CONSERVE': 4}
     what = 'story' if lvl == 'story' else 'item'
     res.explanation = (
@@ -222,6 +224,8 @@ def prop_C03(repo, tier):
     add_findings(res, results, {'FRAME', 'WILDCARD', 'ID-FALLBACK', 'META-SCHEMA', 'STORY-SCOPED', 'UNMODELLED-MUTATION'},
                  as_rule=lambda f: 'FRAME' if f['rule'] == 'UNMODELLED-MUTATION' else f['rule'])
     stale_cache(res, repo, merges=True)
+    from . import rules_shape as _rs
+    _rs.no_shared_memo(res, program(repo))
     res.floors = {'FRAME': 22, 'WILDCARD': 22, 'META-SCHEMA': 1}
     res.explanation = (
         'Static analysis of all merge methods: FRAME (who may be mutated, from the effect traces and the role table), WILDCARD '
@@ -294,6 +298,8 @@ def prop_C05(repo, tier):
                 res.add(as_rule(f), f['func'], f['construct'], False, '[message not schema-shaped] ' + f['detail'], f['file'], f['line'], f['witness'])
     merge_asserts(res, repo)
     stale_cache(res, repo, merges=True)
+    from . import rules_shape as _rs
+    _rs.no_shared_memo(res, program(repo))
     res.floors = {'VALIDATE-BEFORE-MUTATE': 40, 'MAY-ALIAS-REMOVE': 10}
     res.explanation = (
         'Static analysis: in the interprocedural path enumeration of every merge (callees inlined, loops iterated to a fix-point so '
@@ -331,6 +337,8 @@ def prop_C06(repo, tier):
     res.add('ALWAYS-DISPATCH', 'RunningOrder.__add__', 'normal returns of ro + message', True)
     add_findings(res, results, {'ALWAYS-DISPATCH'})
     stale_cache(res, repo, merges=True)
+    from . import rules_shape as _rs
+    _rs.no_shared_memo(res, program(repo))
     res.floors = {'MISS-REPORTED': 22, 'WARN-CATEGORY': 5}
     res.explanation = (
         'Static analysis of every merge: each id-keyed lookup miss (and each duplicate-story test) creates a pending report that must '
